@@ -72,7 +72,16 @@ pub struct E1<'c> {
     pub spec_readers: std::collections::BTreeSet<(u32, u64)>,
     pub spec_reader_defect_seen: bool,
     /// cyclic programs: reference values of every world in which a request was made (oldest first)
+    /// a request in non-monotone mode returned a value instead of panicking: that value is not a
+    /// function of the inputs, so what dependents memoized from it is unspecified from then on
+    pub bad_converged_seen: bool,
+    pub mixed_cycle_seen: bool,
+    /// key ids of memos validated (not executed) in a step in which a cycle iterated (per revision)
+    pub validated_during_iteration: std::collections::BTreeSet<u64>,
     pub past_vals: Vec<Vec<u32>>,
+    /// nodes that, in some world of this run in which a request was made, reached a block member
+    /// that reads untracked state and lies on (or reaches) a cycle
+    pub untracked_cycle_reach: std::collections::BTreeSet<usize>,
     /// fixpoint programs: what the members' memos recorded right before each write (step, infos)
     pub memo_snapshots: Vec<(usize, Vec<MemoInfo>)>,
 }
@@ -126,7 +135,7 @@ pub fn observe(db: &dyn SimDb, n: usize, arg: u32, deep: bool) -> Obs {
             let o = q_mk(db, sh.key(n));
             let mut rows = vec![];
             for h in &o.hs {
-                let mut row = [Some(h.ident(db).0), Some(h.t0(db).0), Some(h.t1(db).0), None, None];
+                let mut row = [Some(ts_ident(db, h)), Some(h.t0(db).0), Some(h.t1(db).0), None, None];
                 if deep {
                     if prog.node_of_kind(Kind::OnTs).is_some() {
                         row[3] = Some(q_on_ts(db, *h).0);
@@ -152,7 +161,7 @@ impl<'c> E1<'c> {
         fault::MASK.store(case.fault_mask, SeqCst);
         let db = SimDatabase::new(&case.prog, &world);
         let oracles = crate::oracles::for_case(case);
-        E1 { case, db: Some(db), world, out: RunOut::default(), step: 0, never: Default::default(), oracles, queries: 0, cycle_panicked_in_rev: false, fb_defect_seen: false, injected_now: false, poisoned_now: false, injected_in_rev: false, last_fault_cb: None, stop_run: false, restored_ts_stale: false, held: vec![], spec_readers: Default::default(), spec_reader_defect_seen: false, past_vals: vec![], memo_snapshots: vec![] }
+        E1 { case, db: Some(db), world, out: RunOut::default(), step: 0, never: Default::default(), oracles, queries: 0, cycle_panicked_in_rev: false, fb_defect_seen: false, injected_now: false, poisoned_now: false, injected_in_rev: false, last_fault_cb: None, stop_run: false, restored_ts_stale: false, held: vec![], spec_readers: Default::default(), spec_reader_defect_seen: false, bad_converged_seen: false, mixed_cycle_seen: false, validated_during_iteration: Default::default(), past_vals: vec![], memo_snapshots: vec![], untracked_cycle_reach: Default::default() }
     }
 
     fn db(&self) -> &SimDatabase {
@@ -204,6 +213,7 @@ impl<'c> E1<'c> {
     fn drain(&mut self, what: &crate::oracles::StepInfo) {
         let evs = self.db().shared.take_log();
         self.track_spec_readers(&evs);
+        self.note_validations(&evs);
         if self.out.stats.get("restores").copied().unwrap_or(0) > 0 && !self.restored_ts_stale {
             // evidence of the recorded C26 finding can appear in a step whose own result happens
             // to be right: a struct (re-)created with one field value and read back with another
@@ -253,7 +263,18 @@ impl<'c> E1<'c> {
         self.oracles.after_step(db, &self.world, self.step, what, &evs, &mut self.out);
     }
 
+    fn note_validations(&mut self, evs: &[Ev]) {
+        if evs.iter().any(|ev| matches!(ev, Ev::Salsa { k: SK::WillIterateCycle | SK::DidFinalizeCycle, .. })) {
+            for ev in evs {
+                if let Ev::Salsa { k: SK::DidValidateMemo, id, .. } = ev {
+                    self.validated_during_iteration.insert(*id);
+                }
+            }
+        }
+    }
+
     fn new_revision_note(&mut self) {
+        self.validated_during_iteration.clear();
         self.cycle_panicked_in_rev = false;
         self.injected_in_rev = false;
         self.out.revisions += 1;
@@ -278,8 +299,19 @@ impl<'c> E1<'c> {
             if bad_mode {
                 self.out.bump("bad_mode_requests");
             }
+            if cr.on_cycle.iter().any(|x| !prog.nodes[*x].kind.is_cycle_kind()) {
+                self.mixed_cycle_seen = true;
+            }
             if self.past_vals.last() != Some(&cr.vals) {
                 self.past_vals.push(cr.vals.clone());
+            }
+            if prog.n_cells > 0 {
+                for x in 0..prog.nodes.len() {
+                    let reach = cr.reachable(x);
+                    if reach.iter().any(|y| cr.untracked[*y] && prog.in_block(*y)) && reach.iter().any(|h| cr.on_cycle.contains(h)) {
+                        self.untracked_cycle_reach.insert(x);
+                    }
+                }
             }
             cr_opt = Some(cr);
         } else {
@@ -315,6 +347,7 @@ impl<'c> E1<'c> {
                 (Ok(g), _) => {
                     self.out.digest = hash_str(self.out.digest, &format!("{g:?}"));
                     self.out.bump("bad_mode_converged");
+                    self.bad_converged_seen = true;
                     info.ok = true;
                 }
                 (_, Some(PK::Msg(m))) if m.contains("too many cycle iterations") || (either_cycle_panic && m.contains("dependency graph cycle")) => {
@@ -334,6 +367,17 @@ impl<'c> E1<'c> {
             match (&exp, &got) {
                 (Ok(e), Ok(g)) => {
                     self.out.digest = hash_str(self.out.digest, &format!("{g:?}"));
+                    if e != g && self.bad_converged_seen {
+                        // C15: the property promises recovery after a non-convergence *panic*. When
+                        // the non-monotone cycle converged silently, its results (history dependent,
+                        // not functions of the inputs) were memoized by dependents with ordinary
+                        // stamps; what those return later is unspecified
+                        self.out.bump("unspecified_after_silent_nonmonotone_convergence");
+                        self.stop_run = true;
+                        info.ok = true;
+                        self.drain(&info);
+                        return;
+                    }
                     if e != g {
                         // diagnosis of the recorded C13 finding: a member of a fallback cycle
                         // returned its body value (gets its own violation class, so that any
@@ -420,8 +464,39 @@ impl<'c> E1<'c> {
                             let reach = cr.reachable(n);
                             reach.iter().any(|x| cr.untracked[*x] && prog.in_block(*x) && reach.iter().any(|h| cr.on_cycle.contains(h)))
                         });
+                        // (the cycle may have existed in an earlier world of the run only: the read was
+                        // lost when the head's dependencies were flattened back then)
+                        let cyc_untracked = cyc_untracked || self.untracked_cycle_reach.contains(&n);
                         if cyc_untracked && self.out.revisions > 0 {
                             self.out.viol("cycle_untracked_read_lost", step, format!("node {n}: expected {e:?} got {g:?}"));
+                            info.ok = true;
+                            self.drain(&info);
+                            return;
+                        }
+                        // recorded finding #14 (C14): in a cycle that contains a function without cycle
+                        // recovery (entered through a fixpoint head, so no panic), a member is validated
+                        // against the provisional memo of that function while the head iterates, and keeps
+                        // its value of an earlier revision
+                        let mixed = cr_opt.as_ref().is_some_and(|cr| cr.on_cycle.iter().any(|x| !prog.nodes[*x].kind.is_cycle_kind()) || self.mixed_cycle_seen);
+                        if mixed {
+                            self.mixed_cycle_seen = true;
+                        }
+                        let hist_mut = self.case.hist[..self.step.min(self.case.hist.len())].iter().any(|s| s.is_mut());
+                        // (evidence: the stale node is itself a fixpoint function, and its memo was
+                        // validated in this revision in a step in which a cycle iterated — also counting
+                        // the events of the current step, which are not drained yet)
+                        let my_id = {
+                            use salsa::plumbing::AsId;
+                            self.db().shared.key(n).as_id().as_bits()
+                        };
+                        let validated_now = {
+                            let log = self.db().shared.log.lock().unwrap();
+                            log.iter().any(|ev| matches!(ev, Ev::Salsa { k: SK::WillIterateCycle | SK::DidFinalizeCycle, .. })) && log.iter().any(|ev| matches!(ev, Ev::Salsa { k: SK::DidValidateMemo, id, .. } if *id == my_id))
+                        };
+                        let validated_in_iteration = validated_now || self.validated_during_iteration.contains(&my_id);
+                        if mixed && hist_mut && validated_in_iteration && self.past_vals.len() >= 2 && self.past_vals[..self.past_vals.len() - 1].iter().any(|v| v[n] == g.v) {
+                            self.out.viol("mixed_cycle_member_validated_stale", step, format!("node {n}: expected {e:?} got {g:?} (= its value in an earlier revision; the cycle contains a function without recovery)"));
+                            self.stop_run = true;
                             info.ok = true;
                             self.drain(&info);
                             return;
@@ -469,6 +544,15 @@ impl<'c> E1<'c> {
                             self.out.viol("stale_output_discard_interrupted", step, format!("node {n}: after a panic in the event callback during stale-output deletion the retry fails: {m}"));
                             self.stop_run = true;
                         }
+                        PK::Msg(m) if m.contains("cannot delete read-locked id") && prog.node_of_kind(Kind::Spec).is_some() && self.out.revisions > 0 && self.spec_key_switched_in_step() => {
+                            // recorded finding (C10), other symptom: the switch of q_spec(E) from "specified" to
+                            // "computed" is reported as unchanged, so the deep verification of the reader goes
+                            // on to later edges (validating memos of structs it is about to drop) before a
+                            // changed input makes it re-execute; dropping such a struct then fails
+                            self.spec_reader_defect_seen = true;
+                            self.out.viol("specify_switch_not_seen_by_validated_reader", step, format!("node {n}: {m}"));
+                            self.stop_run = true;
+                        }
                         PK::Msg(m) if m.contains("cannot delete read-locked id") && self.out.stats.get("restores").copied().unwrap_or(0) > 0 => {
                             // same root cause as restored_tracked_struct_fields_stale: the struct counts as
                             // updated in the snapshot revision, so dropping it there fails
@@ -483,7 +567,21 @@ impl<'c> E1<'c> {
                         other => self.out.viol("unexpected_panic", step, format!("node {n} arg {arg}: expected {e:?} got panic {other:?}")),
                     }
                 }
-                (Err(a), Ok(g)) => self.out.viol("missing_panic", step, format!("node {n}: expected abort {a:?} got {g:?}")),
+                (Err(a), Ok(g)) => {
+                    // recorded finding (C10): the reader of a switched q_spec key was validated instead of
+                    // re-executed, so the panic its body would raise now does not happen
+                    let reader_reused = {
+                        let log = self.db().shared.log.lock().unwrap();
+                        log.iter().any(|ev| matches!(ev, Ev::Salsa { k: SK::DidValidateMemo, ing, id, .. } if self.spec_readers.contains(&(*ing, *id))))
+                    };
+                    if prog.node_of_kind(Kind::Spec).is_some() && self.out.revisions > 0 && (reader_reused || self.spec_reader_defect_seen) {
+                        self.spec_reader_defect_seen = true;
+                        self.out.viol("specify_switch_not_seen_by_validated_reader", step, format!("node {n}: expected abort {a:?} got {g:?} (reader validated)"));
+                        self.stop_run = true;
+                    } else {
+                        self.out.viol("missing_panic", step, format!("node {n}: expected abort {a:?} got {g:?}"))
+                    }
+                }
                 (Err(a), Err(_)) => {
                     let pk = got_pk.clone().unwrap();
                     self.out.digest = hash_str(self.out.digest, &format!("{pk:?}"));
@@ -676,6 +774,16 @@ impl<'c> E1<'c> {
 
     /// C23: every reference returned by a tracked function keeps its value until the database is
     /// next borrowed mutably.
+    /// did the current step discard the assigned (specified) memo of a q_spec key?
+    fn spec_key_switched_in_step(&self) -> bool {
+        let db = self.db();
+        let log = db.shared.log.lock().unwrap();
+        log.iter().any(|ev| match ev {
+            Ev::Salsa { k: SK::WillDiscardStaleOutput, ing, .. } => salsa::Database::ingredient_debug_name(db, salsa::verif::ingredient_index_from_u32(*ing)) == "q_spec",
+            _ => false,
+        })
+    }
+
     fn revalidate_held(&mut self, si: usize) {
         for (addr, node, copy) in &self.held {
             // SAFETY (of the check itself): the reference was obtained from `&db` and no `&mut db`
